@@ -40,15 +40,41 @@ Definition dir_eq_files_no_shadow : Prop :=
     find_sources_in_dir o t d = Ok l_dir -> Permutation fs (py_files t d) -> crawl_each o t fs = Ok l_files ->
     Permutation l_dir l_files \/ ~ NoDup (map s_mod l_files).
 
-(* ... and `-p pkg` from the directory holding pkg yields the same files as the directory (namespace
-   directories apart).  NOT PROVED; compared on real command lines (S2) and model-vs-mypy (C). *)
+(* ... and `-p pkg` from the directory holding pkg yields the same files as the directory (namespace directories,
+   which the walk lists with a directory path, apart).  Strongest form believed TRUE: valid names, no module file beside
+   a same-named directory, every source of the directory rooted at cwd.  NOT PROVED in full.  Proved towards it
+   (Properties.v): package_walk_unfold (the `seen` bookkeeping never loses a module: one level of the walk is exactly
+   "the found module + the walks of all eligible children", whatever the listing order), package_walk_sound (every entry
+   is what find_module returns for its module name), and dir_eq_package_needs_no_shadow (without `no_shadow` it is false:
+   the second finding).  Evaluated by the extracted model on every eligible enumerated case each run (0 counterexamples)
+   and compared on real command lines (S2). *)
 Definition dir_eq_package : Prop :=
-  forall o t base p l_dir l_pkg, wf_node (Dir t) = true -> valid_names t = true ->
+  forall o t base p l_dir l_pkg, wf_node (Dir t) = true -> valid_names t = true -> no_shadow t = true ->
     cwd o = base -> mypy_path o = [] ->
     find_sources_in_dir o t (dn p :: base) = Ok l_dir ->
     (forall s, In s l_dir -> s_base s = Some base) ->
     find_modules_recursive o t [base] [p] = Ok l_pkg ->
     same_sources l_dir (filter (fun s => isfile t (s_path s)) l_pkg).
+
+(* load_graph's same-file check is exact: it fires iff the new module name is not in the graph and its canonical path
+   already belongs to a (necessarily different) module of the graph.  PROVED: Properties.found_twice_iff. *)
+Definition found_twice_iff : Prop :=
+  forall g dep p, (exists e, add_dependency g dep p = inr e) <->
+                  (~ In dep (map fst g) /\ exists m1, In (m1, p) g /\ m1 <> dep).
+
+(* Path-canonicalisation contract (monitored on mypy by the S3 stage, proved for the model's normpath): files are keyed by
+   normpath(join(cwd, spelling)); a canonical path is a fixed point; `./x`, `x/.`, `x/y/..`, `../<cwd>/x` and the absolute
+   spelling all denote the path of `x`; hence the same-file check cannot depend on the spelling. *)
+Definition canonicalisation_contract : Prop :=
+  (forall cwd cs, normpath [] (spell (normpath cwd cs)) = normpath cwd cs) /\
+  (forall cwd cs x c0 rest,
+      normpath cwd (CDot :: cs) = normpath cwd cs /\
+      normpath cwd (cs ++ [CDot]) = normpath cwd cs /\
+      normpath cwd (cs ++ [CName x; CUp]) = normpath cwd cs /\
+      normpath (c0 :: rest) (CUp :: CName c0 :: cs) = normpath (c0 :: rest) cs /\
+      normpath [] (spell cwd ++ cs) = normpath cwd cs) /\
+  (forall cwd cwd' g dep cs cs', normpath cwd cs = normpath cwd' cs' ->
+      add_dependency_spelled cwd g dep cs = add_dependency_spelled cwd' g dep cs').
 
 Definition duplicate_detected : Prop :=
   forall srcs, (exists g, load_roots srcs [] = inl g) <-> NoDup (map s_mod srcs).
